@@ -1025,6 +1025,10 @@ def _opaque_converter(self, conv, args):
         t = self.path.fresh("tag", z3.IntSort())
         self.path.assume(z3.Or(t == T_DEC, t == T_FRAC))
         return VRat(CONV_VAL(conv.t, a, u, unit.t), t)
+    # a converter that cannot convert raises UnitConversionError (what
+    # MoneyConverter does without a rate); any other exception is kind > 2
+    if self.path.branch(kind == 2):
+        self.raise_("UnitConversionError")
     self.raise_("ConverterRaised")
 
 
